@@ -38,7 +38,10 @@ func corpus() []ccase {
 		{24, []write{cw(0, 1, 100, "a", "SCreated", 10), cw(4, 2, 200, "x", "SCreated", 20), pw(4, 200, 2001, "p1", "SCreated")}},
 		// ... created between the two listings
 		{22, []write{cw(0, 1, 100, "a", "SCreated", 10), cw(2, 2, 200, "x", "SCreated", 20), pw(3, 200, 2001, "p1", "SCreated"), cw(4, 2, 201, "y", "SCreated", 30)}},
-		// notified twice: listed and then written again after the watch was opened
+		// partition names around the default partition's: "q_default" is an ordinary partition, "_default_0" belongs to a partition-key collection
+		{1, []write{cw(0, 1, 100, "a", "SCreated", 10), pw(0, 100, 1000, "_default", "SCreated"), pw(0, 100, 1001, "q_default", "SCreated"), pw(0, 100, 1002, "_default_0", "SCreated"),
+			cw(4, 1, 101, "b", "SCreated", 20), pw(4, 101, 1003, "q_default", "SCreated"), pw(4, 101, 1004, "_default_1", "SCreated")}},
+				// notified twice: listed and then written again after the watch was opened
 		{1, []write{cw(0, 1, 100, "a", "SCreated", 10), cw(4, 1, 100, "a", "SCreated", 10), pw(0, 100, 1000, "p1", "SCreated"), pw(4, 100, 1000, "p1", "SCreated")}},
 	}
 }
@@ -105,7 +108,7 @@ func generate(a *hx.Args) (int, []write) {
 			np := r.Intn(3)
 			for j := 0; j < np; j++ {
 				pid := int64(1000 + 10*i + j)
-				pname := []string{"p1", "p2", "_default"}[r.Intn(3)]
+				pname := []string{"p1", "p2", "_default", "q_default", "_default_0", "p1"}[r.Intn(6)]
 				pp := first + r.Intn(5-first)
 				if r.Intn(3) == 0 {
 					ws = append(ws, pw(pp, id, pid, pname, "SCreating"))
